@@ -4,7 +4,7 @@ Two writes of key "a" (values 1 then 2) are sent to a SYNC primary with two back
 backup B1 delays the first Replicate by 9 s and the second by 1 s, so seq=2 overtakes seq=1 there.
 
 Observed on the defective tree:
-  * when write 2 is acknowledged (all backups acked it) B1 ... later holds the OLDER value 1,
+  * B1 applies a=2 at t=2 and then overwrites it with the OLDER a=1 at t=9,
   * at quiescence the replicas differ: primary a=2, B0 a=2, B1 a=1 (permanently diverged).
 Exit status 1 when the defect shows, 0 otherwise.  Standalone: only the library is imported.
 """
